@@ -13,6 +13,9 @@ import (
 
 func init() {
 	Register(&Scenario{Prop: "C01", Name: "roundtrip", Strict: true, Quick: 10, Thorough: 10, Run: func(rc *RunCtx) *simkit.Violation { return runC01(rc, false) }})
+	// the same programs with the in-memory yield points of pkg/cafs switched on (a reader holding a pinned leaf buffer
+	// can be overtaken by other readers' cache insertions and evictions)
+	Register(&Scenario{Prop: "C01", Name: "roundtrip-yields", Strict: true, Quick: 4, Thorough: 5, Cfg: simkit.Config{Yields: true}, Run: func(rc *RunCtx) *simkit.Violation { return runC01(rc, false) }})
 	Register(&Scenario{Prop: "C01", Name: "roundtrip-faulty-gets", Strict: true, Quick: 3, Thorough: 4, Run: func(rc *RunCtx) *simkit.Violation { return runC01(rc, true) }})
 }
 
